@@ -11,5 +11,5 @@ CONSTANTS
   ScenCfg <- MC_Scen_ifh
   ScenTree <- MC_Tree_plain
 VIEW View
-INVARIANTS TreeOK HandlesOK MirrorOK NameGateOK Report
+INVARIANTS TreeOK HandlesOK SwitchesOK MirrorOK NameGateOK Report
 CHECK_DEADLOCK FALSE
